@@ -16,8 +16,10 @@ class MempoolEngine:
         self.case = case
         self.rng = random.Random(case['seed'])
         self.world = World(seed=case['seed'] * 11 + 3)
+        self.world.readd_on_reorg = case.get('readd_on_reorg', True)
         self.handovers = []
         self.refresh_start = None       # world version at the getrawmempool of the refresh in progress
+        self.refresh_tip = None         # index tip at that moment
         self.refresh_calls = 0          # daemon calls since that getrawmempool
         self.refreshes = 0
         self.counters = {}
@@ -33,6 +35,10 @@ class MempoolEngine:
 
     def bump(self, k, n=1):
         self.counters[k] = self.counters.get(k, 0) + n
+
+    def index_tip(self):
+        db = self.srv.db if self.srv else None
+        return db.state.tip if db is not None and db.state is not None else None
 
     def viol(self, key, what, detail=None):
         if not any(v['key'] == key for v in self.violations):
@@ -50,7 +56,7 @@ class MempoolEngine:
 
         async def on_mempool(self_, touched, height):
             eng.handovers.append({'touched': set(touched), 'height': height, 'v_end': eng.world.version,
-                                  'v_start': eng.refresh_start, 'db_height': eng.srv.db.state.height if eng.srv and eng.srv.db else None})
+                                  'v_start': eng.refresh_start, 'tip_start': eng.refresh_tip, 'tip_end': eng.index_tip(), 'db_height': eng.srv.db.state.height if eng.srv and eng.srv.db else None})
             eng.bump('handovers')
             return await orig(self_, touched, height)
         N.on_mempool = on_mempool
@@ -59,6 +65,7 @@ class MempoolEngine:
         m = info['method']
         if m == 'getrawmempool':
             self.refresh_start = self.world.version
+            self.refresh_tip = self.index_tip()
             self.refresh_calls = 0
             self.refreshes += 1
         else:
@@ -69,7 +76,7 @@ class MempoolEngine:
             act['mutate'] = fn
             self.bump('placed_events_fired')
             self.bump(f'placed_at:{m}')
-        lat = self.case.get('latency')
+        lat = (self.case.get('latency_by_method') or {}).get(m) or self.case.get('latency')
         if lat:
             act['latency'] = self.rng.choice(lat)
         return act
@@ -190,7 +197,9 @@ class MempoolEngine:
                     return True
                 if not self.srv.caught_up():
                     return False
+                # the daemon unchanged and the index on the daemon's tip from the listing to the hand-over of that refresh
                 return any(h['v_start'] == target and h['v_end'] == target and h['height'] == w.height()
+                           and h['tip_start'] == w.tip.hash and h['tip_end'] == w.tip.hash
                            for h in self.handovers[start_index:])
             got = await self.srv.wait_until(ok, max(1.0, end - loop.time()))
             if got and w.version == target:
@@ -235,6 +244,17 @@ class MempoolEngine:
             w.switch_to(tip)
         elif kind == 'mine2':
             w.mine(2, confirm='all', ntx=1)
+        elif kind == 'add_child_of_tip':
+            # an unconfirmed tx all of whose inputs were created by non-coinbase txs of the tip block
+            outs = [(t.hash, i) for t in w.tip.txs[1:] for i in range(len(t.outs))]
+            avail = w.mempool_utxos()
+            outs = [o for o in outs if o in avail]
+            if outs:
+                w.mempool_add(parent='confirmed', n_in=1, prefer=outs)
+        elif kind == 'reorg_noremine':
+            # the tip block is replaced and its transactions are not mined again: they return to the mempool
+            tip = w.fork(1, 2, rng=rng, remine=0.0, ntx=0)
+            w.switch_to(tip)
         else:
             raise ValueError(kind)
 
